@@ -5,10 +5,10 @@ import (
 )
 
 type VP1 struct {
-	A int32   `frugal:"1,default,i32"`
-	B *int64  `frugal:"2,optional,i64"`
-	S string  `frugal:"3,required,string"`
-	L []int16 `frugal:"4,default,list<i16>"`
+	A int32            `frugal:"1,default,i32"`
+	B *int64           `frugal:"2,optional,i64"`
+	S string           `frugal:"3,required,string"`
+	L []int16          `frugal:"4,default,list<i16>"`
 	M map[int32]string `frugal:"5,default,map<i32:string>"`
 }
 
